@@ -52,6 +52,7 @@ def run(ctx):
              ('cf1d', dict(ny=3, nx=4, bounds=True, bad_bounds=rng.choice(['transposed', 'three']))),
              ('shoc_simple', dict(ny=3, nx=3, holes='corner')), ('shoc_standard', dict(nj=3, ni=4, holes='random')),
              ('shoc_standard', dict(nj=3, ni=3, holes='edge', invalid=True)),
+             ('shoc_standard', dict(nj=2, ni=4, holes='corner', invalid=False, transposed_coords=('x_centre',))),
              ('ugrid', dict(w=3, h=3, face_coords=True)), ('ugrid', dict(w=3, h=2, face_coords=False, invalid=True))]
     datasets = [gen.any_dataset(rng, f, **kw) for f, kw in fixed]
     while len(datasets) < n_ds:
